@@ -7,6 +7,7 @@ package main
 //        blocks = <id>:<minT>:<maxT>:<level>:<numSamples>:<indexSize>:<seg>,<seg>,… ; …   sorted by minT, minT distinct
 //        steps  = s:<k> | s:x   one Shipper.Sync by a NEW Shipper on the same directory (restart); k = crash budget
 //                                (after k mutating bucket calls every bucket call fails), x = no crash
+//                 t:<j>         one Sync in which exactly the j-th bucket call (reads and writes, from 0) fails
 //                 rm            thanos.shipper.json is lost
 //      o.ship.run …             same, with WithUploadConcurrency(4) (order of chunk uploads not deterministic): oracle only
 //
@@ -117,13 +118,22 @@ func execC35(c *hlib.Ctx, tok []string) string {
 		return "bad-op"
 	}
 	type sstep struct {
-		rm bool
-		k  int
+		rm    bool
+		k     int
+		trans int // >= 0: transient failure of that call
 	}
 	var steps []sstep
 	for _, t := range hlib.Split(tok[3], ";") {
 		if t == "rm" {
-			steps = append(steps, sstep{rm: true})
+			steps = append(steps, sstep{rm: true, trans: -1})
+			continue
+		}
+		if strings.HasPrefix(t, "t:") {
+			v, err := strconv.Atoi(t[2:])
+			if err != nil || v < 0 {
+				return "bad-op"
+			}
+			steps = append(steps, sstep{k: -1, trans: v})
 			continue
 		}
 		if !strings.HasPrefix(t, "s:") {
@@ -137,7 +147,7 @@ func execC35(c *hlib.Ctx, tok []string) string {
 			}
 			k = v
 		}
-		steps = append(steps, sstep{k: k})
+		steps = append(steps, sstep{k: k, trans: -1})
 	}
 	if len(steps) == 0 {
 		return "bad-op"
@@ -198,7 +208,12 @@ func execC35(c *hlib.Ctx, tok []string) string {
 			opts = append(opts, shipper.WithUploadConcurrency(4))
 		}
 		sh := shipper.New(fb, root, opts...)
-		fb.arm(st.k)
+		if st.trans >= 0 {
+			fb.armTransient(st.trans)
+			c.Count("step:sync-transient")
+		} else {
+			fb.arm(st.k)
+		}
 		_, serr := sh.Sync(ctx)
 		_ = sh.Close()
 		var muts []string
@@ -255,7 +270,7 @@ func execC35(c *hlib.Ctx, tok []string) string {
 				}
 			}
 		}
-		if st.k < 0 && serr != nil && (nonOverlapping || allowOOO || !uploadCompacted) {
+		if st.k < 0 && st.trans < 0 && serr != nil && (nonOverlapping || allowOOO || !uploadCompacted) {
 			class := "final-sync-failed"
 			if strings.Contains(serr.Error(), "get all block meta") && strings.Contains(serr.Error(), "not found") {
 				// the overlap checker tripped over a block directory without meta.json (a crashed upload)
@@ -331,6 +346,16 @@ func genC35(c *hlib.Ctx) {
 			}
 		}
 		c.Do(fmt.Sprintf("ship.run %s %s s:x;s:x", cfg, blocks), true)
+		// every bucket call of the first Sync fails once (transient), then a clean Sync
+		for j := 0; j <= total+n+2; j++ {
+			if c.Tier == "quick" && j > 3 && !r.Chance(1, 3) {
+				continue
+			}
+			c.Do(fmt.Sprintf("ship.run %s %s t:%d;s:x", cfg, blocks, j), true)
+			if r.Chance(1, 4) {
+				c.Do(fmt.Sprintf("ship.run %s %s t:%d;t:%d;rm;s:x", cfg, blocks, j, r.Intn(total+n+2)), true)
+			}
+		}
 		c.Do(fmt.Sprintf("o.ship.run %s %s s:%d;s:%d;s:x", cfg, blocks, r.Intn(total+1), r.Intn(total+1)), true)
 	}
 	// random histories
@@ -340,11 +365,13 @@ func genC35(c *hlib.Ctx) {
 		blocks, total := genBlocks(n, cfg == "10" && r.Chance(1, 4))
 		var st []string
 		for j := r.Range(1, 5); j > 0; j-- {
-			switch r.Intn(6) {
+			switch r.Intn(7) {
 			case 0:
 				st = append(st, "rm")
 			case 1:
 				st = append(st, "s:x")
+			case 2:
+				st = append(st, fmt.Sprintf("t:%d", r.Intn(total+n+2)))
 			default:
 				st = append(st, fmt.Sprintf("s:%d", r.Intn(total+2)))
 			}
